@@ -77,7 +77,29 @@ class SerSim:
 def gen_ser_ops(rng, nmsgs, stats, allow_raw_type1=False):
     sim = SerSim()
     ops = ["ser.new"]
+    cadence = None      # (typ, msid, len, delta, remaining): a run of messages that compress to format 3
     for i in range(nmsgs):
+        if cadence is None and rng.chance(1, 6):
+            t = rng.choice([8, 9, 18, 20, 4])
+            cadence = (t, rng.choice([1, 1, 0, 5]), min(sim.length(rng, csid_for(t)), 4 * min(sim.cs, 500) + 1),
+                       rng.choice([0, 10, 40, 0xFFFFFE, 0xFFFFFF, 0x1000000, rng.below(M32)]), rng.range(3, 7))
+        if cadence is not None:
+            typ, msid, ln, delta, rem = cadence
+            csid = csid_for(typ)
+            prev = sim.last_ts.get(csid)
+            ts = delta if prev is None else (prev + delta) % M32
+            ln = min(ln, 200000, int((2e7 * sim.cs) ** 0.5))
+            force = 1 if rng.chance(1, 15) else 0
+            drop = 1 if rng.chance(1, 3) else 0
+            ops.append(f"ser.msg {typ} {msid} {ts} {force} {drop} {payload_tok(i, ln)}")
+            sim.last_delta[csid] = ts if prev is None else (ts - prev) % M32
+            sim.last_ts[csid] = ts; sim.last_len[csid] = ln
+            sim.drops.append(bool(drop))
+            sim.total += ln + 16 + (ln // max(sim.cs, 1)) * 5
+            bump(stats, "cadence_msgs")
+            if drop: bump(stats, "droppable")
+            cadence = None if rem <= 1 or rng.chance(1, 10) else (typ, msid, ln, delta, rem - 1)
+            continue
         if rng.chance(1, 7):
             n = rng.choice(CS_VALUES + [rng.range(1, 400)])
             ts = rng.choice([0, 5, 0xFFFFFF, rng.below(M32)])
